@@ -3,6 +3,7 @@ import math
 from fractions import Fraction as F
 
 from harness import simdrv as S
+from harness.props import C05
 from harness import simprops as SP
 
 ID = 'C06'
@@ -29,6 +30,13 @@ def close(a, b):
 
 
 def monitor(run):
+    # the ticks an operator needs are those of the documented time model (C05's oracle), not merely whatever the
+    # container took: completion ticks and latencies are recounted from these
+    for (op, cpus), script in sorted(run.used.items()):
+        d = C05.script_monitor(run.w.segs_of(op), cpus, run.r['tps'], script)
+        if d:
+            yield f'operator {op} on {cpus} CPUs does not take the ticks its segments need: {d}'
+            break
     r = run.r
     tps = r['tps']
     w = run.w
